@@ -65,6 +65,13 @@ func (w *fpWalker) walk(v reflect.Value, depth int) {
 		w.walk(v.Elem(), depth+1)
 	case reflect.Struct:
 		w.emit(v.Type().String())
+		if selfSynchronised(v.Type()) {
+			// A struct that carries its own lock / once / atomic is meant to change under that
+			// synchronisation (e.g. a lazily filled cache added as a legitimate repair). Whether it is
+			// used correctly is the race detector's call, not the fingerprint's.
+			w.emit("self-synchronised")
+			return
+		}
 		for i := 0; i < v.NumField(); i++ {
 			w.walk(v.Field(i), depth+1)
 		}
@@ -136,6 +143,30 @@ func (w *fpWalker) walk(v reflect.Value, depth int) {
 	default:
 		w.emit("?" + v.Kind().String())
 	}
+}
+
+var syncCache = map[reflect.Type]bool{}
+
+// selfSynchronised: the struct type directly contains a field whose type comes from sync or
+// sync/atomic (by value or by pointer).
+//
+//go:norace
+func selfSynchronised(t reflect.Type) bool {
+	if b, ok := syncCache[t]; ok {
+		return b
+	}
+	r := false
+	for i := 0; i < t.NumField(); i++ {
+		ft := t.Field(i).Type
+		if ft.Kind() == reflect.Ptr {
+			ft = ft.Elem()
+		}
+		if pp := ft.PkgPath(); pp == "sync" || pp == "sync/atomic" {
+			r = true
+		}
+	}
+	syncCache[t] = r
+	return r
 }
 
 // fingerprint hashes the given roots (each in its own alias space).
